@@ -290,10 +290,18 @@ def repo_head():
 
 # ----------------------------------------------------------------------------- known findings
 def load_known():
+    """known_findings.json plus every known_findings.d/*.json (one file per property, so that
+    verticals never edit a shared file); committed, never written at run time."""
+    out = []
     path = os.path.join(VERIF, "known_findings.json")
-    if not os.path.exists(path):
-        return []
-    return json.load(open(path))
+    if os.path.exists(path):
+        out += json.load(open(path))
+    d = os.path.join(VERIF, "known_findings.d")
+    if os.path.isdir(d):
+        for f in sorted(os.listdir(d)):
+            if f.endswith(".json"):
+                out += json.load(open(os.path.join(d, f)))
+    return out
 
 
 # ----------------------------------------------------------------------------- context
